@@ -996,7 +996,8 @@ fn extract<'tcx>(tcx: TyCtxt<'tcx>, dir: &str, crate_name: &str) {
 						Some(t) => cx.path(t),
 						None => String::new(),
 					};
-					let _ = writeln!(impls, "{}\t{}\t{}\t{}", tp, st, mp, tm);
+					let derived = if tcx.is_automatically_derived(impl_id.to_def_id()) { "derived" } else { "hand" };
+					let _ = writeln!(impls, "{}\t{}\t{}\t{}\t{}", tp, st, mp, tm, derived);
 				}
 			}
 		}
